@@ -289,10 +289,16 @@ def prune_cache(keep_prefix_current, pattern, keep=3):
     """remove old build directories of the same family (disk is limited)"""
     if not os.path.isdir(CACHE):
         return
-    fam = sorted((d for d in os.listdir(CACHE) if d.startswith(pattern)),
-                 key=lambda d: os.path.getmtime(os.path.join(CACHE, d)))
+    def mtime(d):
+        try:
+            return os.path.getmtime(os.path.join(CACHE, d))
+        except OSError:
+            return 0
+    fam = sorted((d for d in os.listdir(CACHE) if d.startswith(pattern)), key=mtime)
+    now = time.time()
     for d in fam[:-keep]:
-        if d != keep_prefix_current:
+        # never remove a build another check running at the same time may be using (built in the last 3 hours)
+        if d != keep_prefix_current and now - mtime(d) > 3 * 3600:
             shutil.rmtree(os.path.join(CACHE, d), ignore_errors=True)
 
 
